@@ -72,6 +72,7 @@ def worker(wid, scratch, queue, tier, results, lock):
                           f"{(viol[0] if viol else '')[:120]}", flush=True)
             with lock:
                 results[name] = entry
+                json.dump(results, open(os.path.join(SEEDED, "results.json"), "w"), indent=1, sort_keys=True)
         finally:
             sh(["git", "-C", repo, "checkout", "--", "."])
             sh(["git", "-C", repo, "clean", "-fdq", "src"])
